@@ -21,7 +21,72 @@ func structKey(n *types.Named) string {
 	if o.Pkg() == nil {
 		return o.Name()
 	}
-	return o.Pkg().Path() + "." + o.Name()
+	return o.Pkg().Path() + "." + StructName(n)
+}
+
+var structCanonMemo = map[*types.Package]map[*types.TypeName]string{}
+
+// StructName: the name under which the reviewed tree knows the named struct type n: a struct whose name is not recorded
+// is identified with the one recorded struct of its package that no longer exists and has the same sequence of field
+// types (an unexported type that was renamed).
+func StructName(n *types.Named) string {
+	o := n.Origin().Obj()
+	pkg := o.Pkg()
+	if pkg == nil {
+		return o.Name()
+	}
+	m, ok := structCanonMemo[pkg]
+	if !ok {
+		m = map[*types.TypeName]string{}
+		structCanonMemo[pkg] = m
+		prefix := pkg.Path() + "."
+		sig := func(fs [][2]string) string {
+			var ts []string
+			for _, f := range fs {
+				ts = append(ts, f[1])
+			}
+			return strings.Join(ts, ";")
+		}
+		missing := map[string][]string{} // field-type signature -> recorded names that are gone
+		for k, fs := range FieldTable {
+			if !strings.HasPrefix(k, prefix) || strings.Contains(k[len(prefix):], ".") {
+				continue
+			}
+			name := k[len(prefix):]
+			if pkg.Scope().Lookup(name) == nil {
+				missing[sig(fs)] = append(missing[sig(fs)], name)
+			}
+		}
+		fresh := map[string][]*types.TypeName{}
+		for _, nm := range pkg.Scope().Names() {
+			tn, ok := pkg.Scope().Lookup(nm).(*types.TypeName)
+			if !ok {
+				continue
+			}
+			if _, rec := FieldTable[prefix+nm]; rec {
+				continue
+			}
+			st, ok := tn.Type().Underlying().(*types.Struct)
+			if !ok {
+				continue
+			}
+			var ts []string
+			for i := 0; i < st.NumFields(); i++ {
+				ts = append(ts, fieldTypeString(st.Field(i).Type()))
+			}
+			k := strings.Join(ts, ";")
+			fresh[k] = append(fresh[k], tn)
+		}
+		for k, miss := range missing {
+			if len(miss) == 1 && len(fresh[k]) == 1 {
+				m[fresh[k][0]] = miss[0]
+			}
+		}
+	}
+	if c, ok := m[o]; ok {
+		return c
+	}
+	return o.Name()
 }
 
 func fieldTypeString(t types.Type) string { return types.TypeString(t, nil) }
